@@ -144,6 +144,13 @@ SupportOf(G) == [S |-> G.S, V |-> G.V, rules |-> [r \in DOMAIN G.rules |-> [w |-
 MapBoolOK(e) == \A s \in Strs(SetOf(e.sigma), e.L) :       \* (no shipped semiring has zero divisors or cancellation)
                    Weight("Bool", e.out, s) = Weight("Bool", SupportOf(e.in), s)
 
+(* p_next on a long context of a deterministic right-linear proper grammar: the closed form of Grammars.tla *)
+PNextRLOK(e) ==
+  LET X == StateAfter(e.G, e.ctx) IN
+  \A i \in DOMAIN e.dist :
+     LET t == e.dist[i][1] IN
+     WEq(e.sr, RLNext(e.sr, e.G, X, IF t = e.eos THEN "" ELSE t), e.dist[i][2])
+
 InDomainIn(e) ==
   CASE e.op \in {"parse"} -> InsideExact(e.sr, e.G)
     [] e.op \in {"prefix", "treesum", "treesum1", "pnext", "ntw", "lmcall", "explen", "pnextseq"} ->
@@ -151,6 +158,7 @@ InDomainIn(e) ==
     [] e.op \in {"transform", "derivative", "addeos"} -> InsideExact(e.sr, e.in)
     [] e.op \in {"prefixgrammar", "normalize"} -> InsideExact(e.sr, e.in) /\ TreeSumExact(e.sr, e.in)
     [] e.op = "lang" -> InsideExact(e.sr, e.G)
+    [] e.op = "pnextrl" -> DetRL(e.G) /\ ProperRL(e.sr, e.G)
     [] OTHER -> TRUE
 (* the grammar the CODE produced left the exact domain (a unary / nullable cycle over the rationals): not judged *)
 InDomainOut(e) ==
@@ -181,6 +189,7 @@ Failed(e) ==
     [] e.op = "ntw" -> IF NtwOK(e) THEN {} ELSE {"nexttoken"}
     [] e.op = "lmcall" -> IF LmCallOK(e) THEN {} ELSE {"chainrule"}
     [] e.op = "explen" -> IF ExpLenOK(e) THEN {} ELSE {"explen"}
+    [] e.op = "pnextrl" -> IF PNextRLOK(e) THEN {} ELSE {"longcontext"}
     [] e.op = "pnextseq" -> IF PNextSeqOK(e) THEN {} ELSE {"chainrule"}
     [] e.op = "mapbool" -> IF MapBoolOK(e) THEN {} ELSE {"support"}
 
